@@ -446,10 +446,9 @@ class ChunkedDataDict(GenericEquality):
             obj._dict = self._dict
             obj._global_settings = self._global_settings
             return obj
-        obj._dict = defaultdict(partial(list, self._global_settings))
+        obj._global_settings[:] = self._global_settings
         for key, values in self._dict.items():
-            obj._dict[key].extend(values)
-        obj._global_settings = list(self._global_settings)
+            obj._dict[key] = list(values)
         return obj
 
     def mk_item(self, key, neg, pos):
